@@ -76,6 +76,10 @@ theorem C44_quiescent_delivered (steps : List Step) (s : State) (hr : run init s
   · rw [← hres]; exact h.2
   · rw [hcomp] at h; simp [bcastPending] at h
 
+/-- `quiescent` is exactly "none of the program's own steps is enabled" (the candidate list misses nothing) -/
+theorem quiescent_exact (s : State) :
+    quiescent s = true ↔ ∀ st, external s st = false → step s st = none := quiescent_iff s
+
 /-- runs made of the program's own steps only -/
 def runInternal : State → List Step → Option State
   | s, [] => some s
